@@ -34,8 +34,50 @@ def run_conc(ctx, *, invs, oracle_fns, programs=None, n_random=(10, 120), n_scen
             fn(ctx, e)
     if post:
         post(ctx, execs)
+    validate_exec_traces(ctx, execs, invs)
     if execs:
         e = execs[0]
         ctx.sample({"program": e.prog, "scenario": e.sc, "outcomes": [i.outcome for i in e.invocations],
                     "stream": [(u["inv"], u["name"], u["type"], u["action"]) for u in e.backend.stream][:14]})
     return execs
+
+
+def validate_exec_traces(ctx, execs, invs, name=None):
+    """ExecutorTrace: the invocation in which the (single top-level) map/parallel of a program first executes."""
+    from checks.durable_common import scen_of
+    from checks.executor_common import VARIANT
+    from harness import exec_trace
+    from lib import tracecheck
+    traces, scens, skipped = [], [], 0
+    for e in execs:
+        try:
+            t = exec_trace.convert(e)
+        except exec_trace.Unsupported:
+            skipped += 1
+            continue
+        traces.append(t)
+        scens.append(scen_of(e))
+    ctx.notes["exec_traces_skipped"] = skipped
+    if not traces:
+        return
+    cfg = ["SPECIFICATION TraceSpec", "CONSTANTS",
+           f"  FixOrphanParent = {'TRUE' if VARIANT.get('FixOrphanParent') else 'FALSE'}",
+           f"  FixBteBranch = {'TRUE' if VARIANT.get('FixBteBranch') else 'FALSE'}",
+           f"  FixEmpty = {'TRUE' if VARIANT.get('FixEmpty') else 'FALSE'}",
+           "CONSTRAINT Progress", "CONSTRAINT Prune"] + [f"INVARIANT {i}" for i in invs] + ["POSTCONDITION Accepted", "CHECK_DEADLOCK FALSE"]
+    bound = {"C09": {"OnDone", "Build", "ExReturn", "BodyStart"}, "C10": {"Ckpt", "BodyEnd", "ParentCkpt"},
+             "C07": {"OnDone", "ExReturn", "Resubmit"}, "C06": {"OnDone", "ExReturn", "BodyEnd"}, "C08": set()}
+
+    def classify(trace, scen, reached):
+        evs = trace["evs"]
+        nxt = evs[reached - 1] if 0 <= reached - 1 < len(evs) else {"ev": "?"}
+        if nxt["ev"] in bound.get(ctx.pid, set()):
+            return f"conformance-{nxt['ev']}"
+        lst = ctx.notes.setdefault("conformance_mismatch_outside_property", [])
+        if len(lst) < 5:
+            lst.append({"event": nxt, "matched": reached - 1, "program": scen["prog"]})
+        return "__note__"
+    tracecheck.validate(ctx, "ExecutorTrace", "", traces, scens, name or f"{ctx.pid.lower()}_extrace", cfg_text="\n".join(cfg) + "\n",
+                        classify=classify,
+                        label=f"trace validation of {len(traces)} real map/parallel executions against Executor.tla")
+    ctx.violations = [v for v in ctx.violations if v[0] != "__note__"]
